@@ -30,6 +30,9 @@ type half struct {
 	deadline time.Time
 	timer    *time.Timer
 	total    int // bytes ever written
+	// window > 0: at most that many bytes may sit unread; a writer waits for the reader beyond it (the peer's
+	// receive window is full), as a proxy does whose client reads slowly
+	window int
 }
 
 func newHalf() *half {
@@ -75,6 +78,9 @@ func (c *memConn) Read(p []byte) (int, error) {
 		if len(h.buf) > 0 {
 			n := copy(p, h.buf)
 			h.buf = h.buf[n:]
+			if h.window > 0 {
+				h.cond.Broadcast()
+			}
 			return n, nil
 		}
 		if h.reset {
@@ -102,6 +108,29 @@ func (c *memConn) Write(p []byte) (int, error) {
 	}
 	if h.gone {
 		return 0, c.opErr("write", os.NewSyscallError("write", syscall.EPIPE))
+	}
+	if h.window > 0 {
+		done := 0
+		for done < len(p) {
+			for len(h.buf) >= h.window && !h.gone && !h.eof && !h.reset {
+				h.cond.Wait()
+			}
+			if h.eof || h.reset {
+				return done, c.opErr("write", net.ErrClosed)
+			}
+			if h.gone {
+				return done, c.opErr("write", os.NewSyscallError("write", syscall.EPIPE))
+			}
+			k := h.window - len(h.buf)
+			if k > len(p)-done {
+				k = len(p) - done
+			}
+			h.buf = append(h.buf, p[done:done+k]...)
+			h.total += k
+			done += k
+			h.cond.Broadcast()
+		}
+		return done, nil
 	}
 	h.buf = append(h.buf, p...)
 	h.total += len(p)
